@@ -166,6 +166,9 @@ func runC15(rc *RC) {
 		}
 	}
 	rc.Describe("lag-drain=%v limit=%d first=%d", lagDrain, lagLimit, lagS1)
+	reopenLive := reverse && !overflow && !wrap && acceptMode <= 2 && ch.Chance("workload", 1, 4)
+	var reopenErr error
+	reopenDone := false
 	rc.Describe("overflow=%v strategy=%s block=%d carrier-iq=%v accept=%d reverse=%v len=%d len2=%d closer=%d readbuf=%d wrap=%v tailA=%d tailB=%d early-close=%v", overflow, strat, block, ack, acceptMode, reverse, len(payload), len(payload2), closer, rbuf, wrap, tailA, tailB, earlyClose)
 	rc.CaseKey = fmt.Sprint(block, ack, acceptMode, reverse, closer)
 	bJID := jid.MustParse("example.net")
@@ -320,6 +323,21 @@ func runC15(rc *RC) {
 		}
 		if reverse {
 			rc.Spawn("reader-a", func() { readAll(rc, connA, &rdA, rbuf) })
+		}
+		if reopenLive {
+			// the application asks for a second stream under the session id of the one that is live: there is one stream
+			// per id, so this cannot succeed - and the live stream must not notice (both directions are checked below)
+			rc.Spawn("reopener", func() {
+				simrt.Sleep(time.Duration(ch.Range("workload", 0, 20)) * time.Millisecond)
+				rctx, rcancel := context.WithTimeout(ctx, 20*time.Second)
+				defer rcancel()
+				c2, err := hA.OpenIQ(rctx, stanza.IQ{To: bJID}, p.A, ack, uint16(block), sid)
+				reopenErr, reopenDone = err, true
+				if err == nil && c2 != nil {
+					reopenErr = nil
+				}
+				rc.Fire("reopen-live-sid")
+			})
 		}
 		simrt.WaitUntil("writer-a:buffer-limit-set", func() bool { return bufSet || acceptErr != nil })
 		if lagDrain {
@@ -525,6 +543,15 @@ func runC15(rc *RC) {
 	checkIBBWire(rc, p.CA.Out().Tap, sid, payload[:must1], payload, "a->b")
 	if reverse {
 		checkIBBWire(rc, p.CB.Out().Tap, sid, payload2[:must2], payload2, "b->a")
+	}
+	if reopenLive {
+		rc.S.Run(func() bool { return reopenDone }, 200000, time.Minute)
+		rc.Evals["C15.c1"]++
+		if !reopenDone {
+			rc.Failf("C15.c1", "second-open-for-live-sid-stuck", "OpenIQ for the session id of the live stream has not returned; stuck %v", rc.S.Stuck())
+		} else if reopenErr == nil {
+			rc.Failf("C15.c1", "second-open-for-live-sid-granted", "OpenIQ for the session id of the stream that is live on this very handler returned a connection and no error: there is one stream per session id")
+		}
 	}
 	// phase 3: injected bad packets are refused and disturb nothing
 	if !wrap && ch.Chance("workload", 2, 3) && len(rdB.got) >= must1 {
